@@ -662,6 +662,25 @@ class NumpyShim:
     def errstate(self, **k):
         return rnp.errstate(**k)
 
+    def searchsorted(self, a, v, side="left", **k):
+        if has_sym(a) or has_sym(v):
+            # decided element by element (forks in fork mode): index = number of entries below v
+            def one(x):
+                n = 0
+                for e in a:
+                    below = (e < x) if side == "left" else (e <= x)
+                    if bool(below):
+                        n += 1
+                    else:
+                        break
+                return n
+            if isinstance(v, rnp.ndarray):
+                if v.shape == ():
+                    return rnp.int64(one(v[()]))
+                return rnp.array([one(x) for x in v.reshape(-1)], dtype=rnp.int64).reshape(v.shape)
+            return rnp.int64(one(v))
+        return rnp.searchsorted(a, v, side=side, **k)
+
     def isclose(self, a, b, rtol=1e-05, atol=1e-08, **k):
         if has_sym(a) or has_sym(b):
             def f(x, y):
